@@ -33,6 +33,7 @@ _o_open = builtins.open
 _o = dict((n, getattr(os, n)) for n in (
     "stat", "lstat", "listdir", "scandir", "mkdir", "rmdir", "remove", "unlink", "rename", "replace", "chmod", "utime",
     "access", "truncate", "open", "link", "symlink", "readlink", "makedirs", "getpid", "walk"))
+_o_chdir = os.chdir
 _FIXED_MTIME = 1000000000
 
 _roots = {}
@@ -45,7 +46,20 @@ def norm(path):
     return p
 
 
+# the run's current directory inside the virtual root (None: relative paths are none of the simulation's business).  The
+# process really IS chdir'ed to the matching private directory, so os.getcwd() / abspath() agree with it.
+VCWD = [None]
+
+
+def resolve(path):
+    """a RELATIVE str path is taken relative to the run's virtual current directory"""
+    if VCWD[0] is not None and isinstance(path, str) and path and not path.startswith("/"):
+        return VCWD[0].rstrip("/") + "/" + path
+    return path
+
+
 def under_root(path):
+    path = resolve(path)
     return isinstance(path, str) and (path == ROOT or path.startswith(ROOT + "/"))
 
 
@@ -89,6 +103,7 @@ def to_real(path):
     """'/sim/x' -> '<private dir>/x' (only called for paths under the virtual root).  The path is NOT normalised
     textually: 'a/../b' is resolved by the kernel, component by component, exactly as it would be on a real disk
     (so 'a' must exist; a symlink 'a' is followed)."""
+    path = resolve(path)
     return real_root() + path[len(ROOT):]
 
 
@@ -316,7 +331,7 @@ class SimFS(object):
     # ---- what the code under test reaches through the interposed builtins.open ----------------------------
     def open(self, path, mode="r", *args, **kwargs):
         real = to_real(path)        # as given: the kernel resolves it
-        path = norm(path)           # key for the trace and the fault plan
+        path = norm(resolve(path))  # key for the trace and the fault plan
         if any(c in mode for c in "wax+"):
             try:
                 f = _o_open(real, mode, *args, **kwargs)
@@ -360,6 +375,7 @@ class SimFS(object):
 
     def listdir(self, path):
         path_s = os.fspath(path) if not isinstance(path, str) else path
+        path_s = resolve(path_s)
         names = sorted(_o["listdir"](to_real(path_s)))
         if self.listdir_mode == "reverse":
             names.reverse()
